@@ -491,7 +491,7 @@ fn unaligned_input(prefix: &[bool], off: usize) -> IdpfInput {
 /// and/or nonces): evaluations must reconstruct each report's own programmed values.
 fn shared_instance(ctx: &mut Ctx) {
     let mut rng = ctx.rng("c06-shared-instance");
-    let rounds = ctx.budget(6, 200);
+    let rounds = ctx.budget(18, 200);
     for round in 0..rounds {
         let bits = 2 + rng.usize_below(6);
         let idpf = Idpf::<Field64, Field255>::new((), ());
@@ -1171,7 +1171,7 @@ pub fn run(ctx: &mut Ctx) {
     // it is part of KINDS and runs under the panic monitor.
 
     // Part 1: exhaustive over inputs x prefixes x parties for bits 1..=6, every configuration.
-    let reps = ctx.budget(3, 300);
+    let reps = ctx.budget(9, 300);
     let mut case = 0u64;
     for rep in 0..reps {
         for cfg in 0..N_CONFIGS {
@@ -1197,7 +1197,7 @@ pub fn run(ctx: &mut Ctx) {
     }
 
     // Part 3: sampled longer inputs.
-    let rounds = ctx.budget(3, 200);
+    let rounds = ctx.budget(9, 200);
     let mut scase = 0u64;
     for round in 0..rounds {
         let mut lens: Vec<usize> = (7..=16).collect();
